@@ -11,7 +11,7 @@ fn main() {
     let repo = manifest
         .lines()
         .find(|l| l.trim_start().starts_with("subprocess"))
-        .and_then(|l| l.split("path").nth(1))
+        .and_then(|l| l.find("path").map(|i| &l[i + 4..]))
         .and_then(|r| r.split('"').nth(1))
         .expect("cannot find the path of the subprocess dependency")
         .to_string();
